@@ -74,7 +74,8 @@ End Spec.
 Record env := mk_env {
   e_known : list (bytes * bmeta);    (* lower-case name -> metadata *)
   e_srcs : list N;                   (* SourcesInDescendingOrder *)
-  e_local : list (N * bool)          (* Source.Local() *)
+  e_local : list (N * bool);         (* Source.Local() *)
+  e_ovsrc : N                        (* InternalOverride *)
 }.
 Definition env_local (e : env) (s : N) : bool :=
   match aget N.eqb s (e_local e) with Some x => x | None => false end.
@@ -87,7 +88,9 @@ Record obs := mk_obs {
   o_changed : list (option (list bytes));    (* per call: UpdateFromConfigUpdate's changedFields sorted; for UpdateFrom
                                                 ["*"] / [] for changed = true / false; None when not observed *)
   o_vals : list bytes;
-  o_raws : list (bytes * bytes)
+  o_raws : list (bytes * bytes);
+  o_fresh : bool    (* after the last call (if it succeeded): a FRESH Config fed this Config's current sources
+                       (FromConfigUpdate(ToConfigUpdate())) has the same watched fields and RawValues *)
 }.
 Record case := mk_case {
   c_fixed : bool;                       (* tree variant, probed by the driver on the real code *)
@@ -115,7 +118,7 @@ Definition obs_eqb (x y : obs) : bool :=
   list_eqb Bool.eqb (o_errs x) (o_errs y) && list_eqb Bool.eqb (o_cerrs x) (o_cerrs y)
   && list_eqb ochg_eqb (o_changed x) (o_changed y)
   && list_eqb beqb (o_vals x) (o_vals y)
-  && list_eqb pair_eqb (o_raws x) (o_raws y).
+  && list_eqb pair_eqb (o_raws x) (o_raws y) && Bool.eqb (o_fresh x) (o_fresh y).
 
 Section Run.
   Variable e : env.
@@ -124,17 +127,18 @@ Section Run.
   Let parse := parse_in (c_parse c).
 
   Definition m_history (ups : list (upd bytes bytes)) :=
-    run_history beqb bleb lower_b is_none_b is_empty_b known parse (e_srcs e) (env_local e) beqb
+    run_history beqb bleb lower_b is_none_b is_empty_b known parse (e_srcs e) (env_local e) beqb (e_ovsrc e)
                 (c_fixed c) (c_sorted c) ups.
 
   Definition is_err {A} (r : option A) : bool := match r with None => true | Some _ => false end.
 
-  (* UpdateFrom only says whether anything changed *)
+  (* UpdateFrom and OverrideParam only say whether anything changed *)
   Definition show_changed (u : upd bytes bytes) (ch : option (list bytes)) : option (list bytes) :=
     match u, ch with
-    | UFrom _ _, Some [] => Some []
-    | UFrom _ _, Some _ => Some [[42]]
-    | _, _ => ch
+    | UAll _, _ => ch
+    | _, Some [] => Some []
+    | _, Some _ => Some [[42]]
+    | _, None => None
     end.
   Fixpoint map2 {A B C} (f : A -> B -> C) (a : list A) (b0 : list B) : list C :=
     match a, b0 with
@@ -148,7 +152,7 @@ Section Run.
     let cerrs := map (@k_cerr _ _ _) ks in
     let chs := map2 show_changed ups (map (@k_changed _ _ _) ks) in
     match last (map (@k_res _ _ _) ks) None with
-    | None => mk_obs errs cerrs chs [] []
+    | None => mk_obs errs cerrs chs [] [] true
     | Some st =>
         mk_obs errs cerrs chs
                (map (fun n => match known (lower_b n) with
@@ -156,6 +160,7 @@ Section Run.
                               | None => []
                               end) (c_watch c))
                (sort_kvs bleb (r_raws st))
+               true
     end.
 
   (* map iteration orders: every permutation of an update's entries when two of its names differ only in case
@@ -194,10 +199,10 @@ Section Run.
 
   (* ---- the oracle: Spec on the implementation's observations ---- *)
   Definition s_store := store (K := bytes) is_empty_b.
-  Fixpoint cfgs_after (cf : cfg bytes bytes) (ups : list (upd bytes bytes)) : list (cfg bytes bytes) :=
+  Fixpoint cfgs_after (cf : hst bytes bytes) (ups : list (upd bytes bytes)) : list (cfg bytes bytes) :=
     match ups with
     | [] => []
-    | u :: t => let c' := apply_upd is_empty_b cf u in c' :: cfgs_after c' t
+    | u :: t => let c' := apply_upd beqb is_empty_b 6 cf u in fst c' :: cfgs_after c' t
     end.
   (* the ORACLE takes the priority order and the local sources from the property text, not from the code:
      internal override (6), environment (5), config file (4), per-host (3), per-selector (2), global datastore (1);
@@ -215,9 +220,10 @@ Section Run.
     end.
 
   Definition ok_obs (o : obs) : bool :=
-    let cfs := cfgs_after [] (c_ups c) in
+    let cfs := cfgs_after ([], []) (c_ups c) in
     all2 s_ok_err cfs (o_errs o)
     && all2 (fun er ce => implb er ce) (o_errs o) (o_cerrs o)      (* an error return leaves Config.Err set *)
+    && o_fresh o       (* the result is a function of the CURRENT sources: a fresh Config fed them agrees *)
     && match last (o_errs o) true with
        | true => true
        | false => all2 (s_ok_value (last cfs [])) (c_watch c) (o_vals o)
